@@ -4,3 +4,4 @@ import Drv.Session
 import Drv.Broker
 import Drv.BaseConn
 import Drv.Stream
+import Drv.Service
